@@ -108,9 +108,11 @@ Section Top.
   Theorem load_asset_atomic md apath name o a c a' c' e :
     load_asset B enc dec md apath name o a c = Ok (a', c', Some e) -> a' = a.
   Proof.
-    destruct o as [| |sets0|sets]; cbn [Cache.load_asset]; intros H; try (inversion H; reflexivity).
-    match type of H with (do r <- ?T; _) = _ => destruct T as [[[x1 c1] e1]| |] end; cbn [bind] in H; try discriminate.
-    destruct e1; inversion H; reflexivity.
+    assert (Hm : forall sets, load_mpd B enc dec md apath name sets a c = Ok (a', c', Some e) -> a' = a).
+    { intros sets H. unfold Cache.load_mpd in H.
+      match type of H with (do r <- ?T; _) = _ => destruct T as [[[x1 c1] e1]| |] end; cbn [bind] in H; try discriminate.
+      destruct e1; inversion H; reflexivity. }
+    destruct o as [| |sets|sets|sets]; cbn [Cache.load_asset]; intros H; try (inversion H; reflexivity); try discriminate; eapply Hm; eauto.
   Qed.
 
   (** ** A registered MPD has all its representations (scan and write mode) *)
@@ -188,7 +190,7 @@ Section Top.
     In name (a_mpds a') /\ keys_kept a a' /\
     forall s b m, In s sets -> In (b, m) (as_reps s) -> lookup (m_id m) (a_reps a') <> None.
   Proof.
-    intros Hnc H. cbn [Cache.load_asset] in H.
+    intros Hnc H. cbn [Cache.load_asset] in H. unfold Cache.load_mpd in H.
     match type of H with (do r <- load_sets _ _ _ _ _ _ ?A1 _; _) = _ => set (a1 := A1) in * end.
     destruct (load_sets B enc dec md apath sets a1 c) as [[[x1 c1] e1]| |] eqn:Es; cbn [bind] in H; try discriminate.
     destruct e1; inversion H; subst.
